@@ -446,7 +446,9 @@ func (n *Nodis) Rename(key, dstKey string) error {
 			dstMeta.RWMutex = new(sync.RWMutex)
 			dstMeta.key = ds.NewKey(dstKey, meta.key.Expiration)
 			n.store.mu.Lock()
-			n.store.metadata.Set(dstKey, dstMeta)
+			if old, replaced := n.store.metadata.Set(dstKey, dstMeta); replaced && old != dstMeta {
+				old.unpersist(n.store.ss)
+			}
 			n.store.mu.Unlock()
 		}
 		dstMeta.setValue(meta.value)
@@ -476,7 +478,9 @@ func (n *Nodis) RenameNX(key, dstKey string) error {
 		dstMeta.key = ds.NewKey(dstKey, meta.key.Expiration)
 		dstMeta.setValue(meta.value)
 		n.store.mu.Lock()
-		n.store.metadata.Set(dstKey, dstMeta)
+		if old, replaced := n.store.metadata.Set(dstKey, dstMeta); replaced && old != dstMeta {
+			old.unpersist(n.store.ss)
+		}
 		n.store.mu.Unlock()
 		n.signalModifiedKey(key, meta)
 		n.signalModifiedKey(dstKey, dstMeta)
